@@ -1,4 +1,5 @@
 import TsrunVerif.Driver.Path
+import TsrunVerif.Driver.Heap
 
 /-! `tvdriver <model>`: line protocol, one observation line per case line. -/
 
@@ -14,4 +15,5 @@ def main (args : List String) : IO UInt32 := do
   let stdout ← IO.getStdout
   match args with
   | ["path"] => loop stdin stdout TsrunVerif.Driver.pathLine; return 0
+  | ["heap"] => loop stdin stdout TsrunVerif.Driver.heapLine; return 0
   | _ => IO.eprintln "usage: tvdriver <model>"; return 2
